@@ -25,6 +25,7 @@ type HarnessSpec struct {
 	MaxPaths int
 	Sched    bool // explore schedules
 	MaxPre   int
+	MapOrder []string
 }
 
 type Counterexample struct {
@@ -57,6 +58,7 @@ type Stats struct {
 	ConcreteAsserts                int
 	Unknown                        int
 	AssumeFailed                   int
+	Completed                      int // paths that ran to the end of the harness
 	Diverged                       int
 	SolverTime                     time.Duration
 	InterpTime                     time.Duration
@@ -162,6 +164,7 @@ func (e *Explorer) baseConfig(inputs map[string]uint64) *interp.Config {
 		Inputs:       inputs,
 		Known:        e.Known,
 		Params:       e.spec.Params,
+		MapOrderFns:  e.spec.MapOrder,
 		ExploreSched: e.spec.Sched,
 		Trace:        os.Getenv("SYMX_TRACE") != "",
 		MaxPreempt:   e.spec.MaxPre,
@@ -432,16 +435,25 @@ func (e *Explorer) process(solver *smt.Solver, it *item) ([]*item, error) {
 	}
 	switch res.Status {
 	case "ok", "assume-failed":
+		if res.Status == "ok" {
+			e.mu.Lock()
+			st.Completed++
+			e.mu.Unlock()
+		}
 		if res.Status == "assume-failed" {
 			e.mu.Lock()
 			st.AssumeFailed++
 			e.mu.Unlock()
 		}
-	case "violation", "panic-escape":
+	case "violation", "panic-escape", "deadlock":
 		label := res.Msg
 		site := ""
 		if res.Status == "panic-escape" {
 			label = "no-panic"
+		}
+		if res.Status == "deadlock" {
+			// every goroutine of the system under test is blocked for ever: a stall is a violation
+			label = "no-deadlock"
 		}
 		for _, ev := range res.Events {
 			if ev.Kind == "violation" {
